@@ -397,7 +397,7 @@ func ruleUnsubPrecond(c *Ctx) {
 			return nil
 		}
 		sp.Branch = func(t *Tracer, fr *Frame, i *ssa.If, dir bool) []Ev {
-			if fr != t.RootFr && !(fr.Parent == t.RootFr && isSmallPredicate(fr.Fn)) {
+			if fr != t.RootFr && fr.ID != -1 && !(fr.Parent == t.RootFr && isSmallPredicate(fr.Fn)) {
 				return nil // decisions inside removeCount and the collector are not refusals
 			}
 			v := i.Cond
